@@ -78,6 +78,15 @@ def check_transport(s):
         return None
     if u.protocol == "PYROMETA":
         return None
+    # copies made through the state: URI(uri), copy.copy, copy.deepcopy
+    import copy as _copy
+    for how, mk in (("URI(u)", lambda: core.URI(u)), ("copy.copy", lambda: _copy.copy(u)), ("copy.deepcopy", lambda: _copy.deepcopy(u))):
+        try:
+            v = mk()
+            if v != u or v.__getstate__() != u.__getstate__() or hash(v) != hash(u) or str(v) != str(u):
+                return {"input": s, "via": how, "violated": "copy differs from the original: %r -> %r" % (u.__getstate__(), v.__getstate__())}
+        except Exception as x:     # noqa
+            return {"input": s, "via": how, "violated": "copy of an accepted URI failed: %r" % (x,)}
     for name in ("serpent", "json", "marshal", "msgpack"):
         ser = serializers.serializers[name]
         try:
@@ -164,7 +173,7 @@ def main(mode):
         fail = {"violated": "assumed string/regex contract differs from CPython: %r" % (bad[:3],)}
     protos = ["PYRO", "pyro", "PyRo", "PYRONAME", "pyroname", "PYROMETA", "PYROX", "PYR"]
     objs = ["obj", "o.b-j_1", "a@b", "x@", "Obj", "ＯＢＪ", "o:b", "a,b", ",", " a", "a b", ""]
-    locs = [None, "h:1", "host.example.COM:9090", "h", "h:", ":55", "h:0x10", "h: 7", "h:+7", "h:-7", "h:７", "h:1_0", "127.0.0.1:65535", "[::1]:8", "[::1]", "[2001:DB8::2:1]:4444",
+    locs = [None, "h:0", "localhost:0", "h:00", "[::1]:0", "h:1", "host.example.COM:9090", "h", "h:", ":55", "h:0x10", "h: 7", "h:+7", "h:-7", "h:７", "h:1_0", "127.0.0.1:65535", "[::1]:8", "[::1]", "[2001:DB8::2:1]:4444",
             "[abc]:5", "[%eth0]:1", "[[::1]]:5", "[::1]:", "[::1]:x", "[g]:1", "[]:1", "./u:sock", "./u:/tmp/s.sock", "./u:", "./u:a:b", "./u", "./u:9", "[h:1", "h:1:2", "h]:1",
             "@h:1", "h:1@x", "h\n:1", "H:00055"]
     inputs = []
